@@ -3,3 +3,7 @@ pub assume_specification<T: Copy> [Option::<&T>::copied] (o: Option<&T>) -> (r: 
     ensures r == (match o { Some(x) => Some(*x), None => None::<T> });
 pub assume_specification<T> [bool::then_some] (b: bool, t: T) -> (r: Option<T>)
     ensures r == (if b { Some(t) } else { None::<T> });
+// Option::map_or(default, f): default for None, f(x) for Some(x) (std documentation)
+pub assume_specification<T, U, F: FnOnce(T) -> U> [Option::<T>::map_or] (o: Option<T>, default: U, f: F) -> (r: U)
+    requires o is Some ==> call_requires(f, (o->0,)),
+    ensures o is None ==> r == default, o is Some ==> call_ensures(f, (o->0,), r);
